@@ -138,10 +138,19 @@ class Impl:
         except NotImplementedError:
             return "unsupported", None
         conc = [(n, e) for (n, _ct, e) in self.store.iter_with_etag()]
+        try:
+            conc.append((".xandikos", self.store._get_etag(".xandikos")))
+        except KeyError:
+            pass
         if git_tree_id(conc) != t:
             self.notes.append(f"ctag {t} is not the git tree hash of the listed entries")
             return "ctag =?" + t, t
         sym = self.listing()
+        try:
+            sym.append((".xandikos", self.cfg_or_tok(".xandikos", b"".join(self.store._get_raw(".xandikos")))))
+            sym.sort(key=lambda p: p[0].encode("utf-8"))
+        except KeyError:
+            pass
         self.tree_tokens[t] = sym
         return "ctag " + enc_pairs(sym), t
 
@@ -167,6 +176,38 @@ class Impl:
         items = ["+" + q(n) + ":" + q(e) for n, e in plus] + ["-" + q(n) for n in minus]
         return "changes =" + ",".join(items)
 
+    META = {"displayname": ("set_displayname", "get_displayname"), "description": ("set_description", "get_description"),
+            "color": ("set_color", "get_color"), "comment": ("set_comment", "get_comment")}
+
+    def setmeta(self, key, value):
+        try:
+            if key == "order":
+                self.store.config.set_order(value)
+            else:
+                getattr(self.store, self.META[key][0])(value)
+        except Exception as e:
+            self.notes_exc = getattr(self, "notes_exc", []) + [type(e).__name__]
+            return "raise"
+        return "ok"
+
+    def getmeta(self, key):
+        try:
+            if key == "order":
+                try:
+                    v = self.store.config.get_order()
+                except KeyError:
+                    v = None
+            else:
+                v = getattr(self.store, self.META[key][1])()
+        except Exception as e:
+            return "raise " + type(e).__name__
+        return "none" if v is None else "val " + enc(v)
+
+    def cfg_or_tok(self, name, data):
+        if name == ".xandikos":
+            return "cfg:" + data.decode("utf-8", "replace")
+        return self.toks.tok(data)
+
     def worktree(self):
         """Files in the working tree of a tree store (the control directory excluded)."""
         pairs = []
@@ -175,7 +216,7 @@ class Impl:
                 continue
             p = os.path.join(self.path, n)
             if os.path.isfile(p):
-                pairs.append((n, self.toks.tok(open(p, "rb").read())))
+                pairs.append((n, self.cfg_or_tok(n, open(p, "rb").read())))
         return "wt " + enc_pairs(pairs)
 
     def commits(self):
@@ -198,7 +239,11 @@ class Impl:
         tree = repo[first_tree]
         pairs = []
         for item in tree.items():
-            pairs.append((item.path.decode("utf-8"), self.toks.of_etag(item.sha.decode(), "bare")))
+            nm = item.path.decode("utf-8")
+            if nm == ".xandikos":
+                pairs.append((nm, self.cfg_or_tok(nm, repo[item.sha].data)))
+            else:
+                pairs.append((nm, self.toks.of_etag(item.sha.decode(), "bare")))
         pairs.sort(key=lambda p: p[0].encode("utf-8"))
         return "commits %d %s" % (n, enc_pairs(pairs))
 
@@ -234,6 +279,7 @@ def execute(kind, template, toks, attrs, root, git_every_step=False):
     history = {}  # name -> list of etag tokens it ever had
     issued = []  # (sha, symbolic)
     names = sorted({op[1] for op in template if op[0] in ("put", "del")})
+    meta_keys = sorted({op[1] for op in template if op[0] == "setmeta"})
 
     def cur(name):
         for n, e in impl.listing():
@@ -271,6 +317,9 @@ def execute(kind, template, toks, attrs, root, git_every_step=False):
             lines.append("commits | " + impl.commits())
         if impl.kind == "tree":
             lines.append("wt | " + impl.worktree())
+        if meta_keys and impl.mkind != "vdir":
+            for k in meta_keys:
+                lines.append("getmeta %s | %s" % (enc(k), impl.getmeta(k)))
 
     def gitcheck():
         if kind in ("bare-disk", "tree"):
@@ -294,6 +343,11 @@ def execute(kind, template, toks, attrs, root, git_every_step=False):
             rep = resolve(sel, name)
             obs = impl.delete(name, rep)
             lines.append("del %s %s | %s" % (enc(name), enc(rep), obs))
+        elif op[0] == "setmeta":
+            _, key, value = op
+            if impl.mkind == "vdir":
+                continue
+            lines.append("setmeta %s %s | %s" % (enc(key), enc(value), impl.setmeta(key, value)))
         elif op[0] == "restart":
             impl.restart()
             lines.append("restart | restart")
